@@ -292,7 +292,32 @@ func zzC06Waiter() {
 	// some operation touches the key; if it finds the record expired the waiter must be released
 	sawGone := false
 	recreated := false
-	switch vChoose("touch", 6) {
+	// optionally a second waiter on the same record, which may give up before anything happens
+	var w2 *zzWaiter
+	if vParam("W2") == 1 {
+		w2 = &zzWaiter{key: "a", ver: r.Version, ctx: zzNewCtx(), finished: make(chan struct{})}
+		vSpawn("waiter2", func() {
+			w2.err = st.WaitForVersionChange(w2.ctx, w2.key, w2.ver)
+			close(w2.finished)
+		})
+		if vChoose("cancelSecond", 2) == 1 {
+			vYield()
+			w2.ctx.cancel()
+		}
+	}
+	replaced := false
+	switch vChoose("touch", 8) {
+	case 7:
+		// the record is replaced by one without expiration before/after its timer fires
+		_, e := st.Put(bg, kvs.Record{Key: "a", Value: []byte{9}})
+		vAssert(e == nil, "Put failed")
+		replaced = true
+	case 6:
+		// nobody touches the key: time alone passes the expiration; the parked waiter must still end
+		vSettle()
+		now := time.Now()
+		vAssume(exp.Before(now))
+		sawGone = true
 	case 0:
 		_, e := st.Get(bg, "a")
 		sawGone = zzIsErr(e, errors.ErrNotExist)
@@ -316,6 +341,11 @@ func zzC06Waiter() {
 		sawGone = !it.HasNext()
 	}
 	vReach("touched")
+	if replaced {
+		<-w.finished
+		// (ErrNotExist is legitimate when the old record's expiration had already passed when the waiter looked)
+		vAssert(w.err == nil || zzIsErr(w.err, errors.ErrNotExist), "a waiter on a replaced record returned neither nil nor ErrNotExist")
+	}
 	if sawGone {
 		<-w.finished // a lost notification shows as a deadlock here
 		if recreated {
@@ -327,6 +357,11 @@ func zzC06Waiter() {
 	}
 	w.ctx.cancel()
 	<-w.finished
+	if w2 != nil {
+		w2.ctx.cancel()
+		<-w2.finished
+		vAssert(w2.err == nil || w2.err == context.Canceled || zzIsErr(w2.err, errors.ErrNotExist), "second waiter returned an undocumented error")
+	}
 	s.lock.Lock()
 	vAssert(len(s.verChange) == 0, "waiter bookkeeping left behind")
 	s.lock.Unlock()
